@@ -150,7 +150,9 @@ def dynamic_traces(ctx, tid0, desc, net, k, rng):
     lines, metas = [], []
     for q, ops in enumerate(seqs):
         refA = [rng.uniform(1e-5, 1e-3) for _ in range(nel)]
-        refA[hidx] = 1.0
+        refA[hidx] = rng.choice([1.0, 1.0, 2.5e4, 0.37])     # number densities as well as fractional abundances: the code divides by the H entry
+        if refA[hidx] != 1.0:
+            refA = [x * refA[hidx] if i != hidx else x for i, x in enumerate(refA)]
         ab = [rng.uniform(0.1, 5.0) for _ in range(neq)]
         lines.append(" ".join([str(tid0 + q)] + [repr(x) for x in refA] + [repr(x) for x in ab] + [str(len(ops))] + [str(o) for o in ops]))
         metas.append((refA, ab, ops))
